@@ -205,6 +205,10 @@ class Machine:
         self.depth = 0
         self.max_depth = max_depth
         self.fit_cache = {}
+        self.optimistic = False  # two-pass wrap analysis (see fit): assume no wrap, justify all assumptions at the end
+        self.precise_sites = set()
+        self.assumed = []  # (site, expr, lo_b, hi_b)
+        self.cur_site = None
         self.push_addsub = False  # experimental (9.3): pushes +-w into ite leaves; faster on some shapes, explodes value sets on others
         self.lin_cache = {}
         self.excl = {}
@@ -410,6 +414,13 @@ class Machine:
         hit = self.fit_cache.get(key)
         if hit is not None:
             return hit[0]
+        if self.optimistic and self.cur_site not in self.precise_sites and t.lo >= lo_b - M and t.hi <= hi_b + M:
+            # assume the term does not wrap here; the assumption is recorded and must be discharged after the run
+            # (dpcheck.symbolic_run re-runs with this site treated precisely if it cannot be)
+            self.assumed.append((self.cur_site, t.e, lo_b, hi_b))
+            r = Term(t.e, max(t.lo, lo_b), min(t.hi, hi_b))
+            self.fit_cache[key] = (r, t)
+            return r
         can_lo = t.lo < lo_b and self.can(t.e < lo_b)
         can_hi = t.hi > hi_b and self.can(t.e > hi_b)
         if not can_lo and not can_hi:
@@ -1002,6 +1013,7 @@ class Exec:
                 ins = insts[i]
                 op = ins["op"]
                 self.stats["instr"] += 1
+                self.cur_site = (F.name, bid, i)
                 if op == "load":
                     addr = self.val(frame, ins["args"][0])
                     size = ins["size"]
